@@ -63,7 +63,12 @@ StStep(st, e) ==
          LET b == SerBytes(e.ty, e.v, e.c) IN
          << /\ e.out.res = "ok"
             /\ e.out.bytes = b
-            /\ Len(b) = SizeOf(e.ty, e.c),
+            /\ Len(b) = SizeOf(e.ty, e.c)
+            \* whatever the sink: all the bytes in order when it takes them in pieces, an error when
+            \* it cannot hold them
+            /\ ("sinks" \in DOMAIN e.out => \A k \in 1..Len(e.out.sinks) :
+                  IF e.out.sinks[k].kind = "chunked" THEN e.out.sinks[k].res = "ok" /\ e.out.sinks[k].bytes = b
+                  ELSE e.out.sinks[k].res = "err"),
             [st EXCEPT !.w = st.w \o b] >>
     [] e.fn = "read" ->
          LET need == SizeOf(e.ty, e.c)
